@@ -405,6 +405,18 @@ def validate_umap(ctx, n, rng, label="translator-validation(umap_)", only=None):
             emb = rng.integers(-8, 9, (n_old, dim)) / 4.0
             cases.append(("init_transform", U.init_transform, (idx, w, emb)))
             lines.append(" ".join(["init_transform", "3"] + tok_im(idx) + tok_m(w) + tok_m(emb)))
+        if only in (None, "compute_membership_strengths"):
+            nn, kk = int(rng.integers(1, 6)), int(rng.integers(1, 5))
+            idx = rng.integers(0, nn, (nn, kk)).astype(np.int32)
+            idx[:, 0] = np.arange(nn)
+            idx[rng.random((nn, kk)) < 0.15] = -1
+            dd = np.sort(rng.integers(0, 17, (nn, kk)) / 8.0, axis=1).astype(np.float32)
+            sg = (rng.integers(0, 9, nn) / 4.0).astype(np.float32)           # some sigmas exactly 0
+            rh = (rng.integers(0, 9, nn) / 8.0).astype(np.float32)
+            rd, bp = bool(rng.integers(0, 2)), bool(rng.integers(0, 2))
+            cases.append(("compute_membership_strengths", U.compute_membership_strengths, (idx, dd, sg, rh, rd, bp)))
+            lines.append(" ".join(["compute_membership_strengths", "6", "zm", str(nn), str(kk)] + [str(int(v)) for v in idx.ravel()]
+                                  + tok_m(dd) + tok_v(sg) + tok_v(rh) + ["b", str(int(rd)), "b", str(int(bp))]))
         if only in (None, "init_update"):
             n_tot, kk, dim = int(rng.integers(2, 7)), int(rng.integers(1, 4)), int(rng.integers(1, 3))
             n_old = int(rng.integers(1, n_tot + 1))
@@ -425,6 +437,29 @@ def validate_umap(ctx, n, rng, label="translator-validation(umap_)", only=None):
                 r = g(*a2)
             except ZeroDivisionError:
                 continue
+        if fname == "compute_membership_strengths":
+            # rows, cols, vals (+ dists): compare the three (four) output arrays cell by cell
+            ints = ans.split("ints")
+            t_ = ans.split()
+            try:
+                k0 = [i_ for i_, x_ in enumerate(t_) if x_ in ("ints", "vals")]
+                parts = [t_[a_ + 1:b_] for a_, b_ in zip(k0, k0[1:] + [len(t_)])]
+                g_rows, g_cols = [int(x_) for x_ in parts[0]], [int(x_) for x_ in parts[1]]
+                g_vals, g_d = [b2f(x_) for x_ in parts[2]], [b2f(x_) for x_ in parts[3]]
+            except Exception:  # noqa
+                ctx.mismatch(label, {"srcdrv": ans[:200]}, case_of(fname, args))
+                continue
+            w_rows, w_cols, w_vals, w_d = r
+            okc = (g_rows == [int(v) for v in w_rows] and g_cols == [int(v) for v in w_cols]
+                   and len(g_vals) == len(w_vals) and all(abs(a_ - float(b_)) <= 2e-6 for a_, b_ in zip(g_vals, w_vals))
+                   and (w_d is None and g_d == [] or w_d is not None and len(g_d) == len(w_d)
+                        and all(abs(a_ - float(b_)) <= 1e-7 for a_, b_ in zip(g_d, w_d))))
+            k_cmp += 1
+            per[fname] = per.get(fname, 0) + 1
+            if not okc:
+                ctx.mismatch(label, {"srcdrv": [g_rows[:6], g_cols[:6], g_vals[:6]], "python": [list(map(int, w_rows[:6])), list(map(int, w_cols[:6])), list(map(float, w_vals[:6]))]},
+                             case_of(fname, args))
+            continue
         if fname == "fast_intersection":
             want = [float(v) for v in a2[2]]            # in-place procedure: the mutated `values`
         elif fname == "init_update":
